@@ -15,7 +15,7 @@ PROP = "C19"
 TECHNIQUE = "Hypothesis-generated event lists rendered by independent reference encoders into each text format, loaded through csep.load_catalog and compared with the generating list after the format's own quantisation (round trip / differential)"
 RULE = ("one case = format (csep-csv, zmap, jma-csv, ingv_horus, ndk) x 1..50 records (full coordinate ranges; times across years, leap days, "
         "minute/hour/day roll-overs; seconds written as 60 where the format allows; JMA offsets +09:00/+00:00/-03:30; optional columns "
-        "present/absent; single-record files; record lists repeated to 2500+ records; loader option format=csep; optional non-UTC process "
+        "present/absent; last line with / without terminator; single-record files; record lists repeated to 2500+ records; loader option format=csep; optional non-UTC process "
         "time zone). Expected events = generating list after the format's quantisation (text precision; HORUS "
         "float32; ZMAP/NDK/HORUS whole seconds by truncation, CSEP/JMA milliseconds; NDK magnitude from the scalar moment). "
         "Non-trivial = file with >= 2 records containing a roll-over or a non-UTC offset; distinct = canonical JSON.")
